@@ -4,7 +4,7 @@ mkdir -p /verif/build/logs
 for it in "$@"; do
   ID=${it%%:*}; X=${it##*:}
   echo "=== $ID-$X $(date +%T)"
-  python3 /verif/vlib/seedconfirm.py /tmp/seed/$ID/out/$X $ID $X ${SEEDFLAGS:-} > /verif/build/logs/seed-$ID-$X.json 2>&1
+  python3 /verif/vlib/seedconfirm.py ${SEEDBASE:-/tmp/seed}/$ID/out/$X $ID $X ${SEEDFLAGS:-} > /verif/build/logs/seed-$ID-$X.json 2>&1
   tail -1 /verif/build/logs/seed-$ID-$X.json
   grep -E '"(demo_pristine_passes|demo_patched_fails|existing_tests_pass|exit)"' /verif/build/logs/seed-$ID-$X.json | tr -d '\n'; echo
 done
